@@ -49,7 +49,7 @@ def gen_case(seed, tier, index=0):
         {"path": "src/deep/c.html", "content": "<html></html>\n"},
         {"path": "docs/d.md", "content": "text\n"},
         {"path": "docs/data.json", "content": "{}\n"},
-        {"path": "docs/logo.png", "content": "\x89PNG\x00\x00\udcff"},
+        {"path": "docs/logo.png", "content": G.BINARY},
         {"path": "src/unknown.xyz", "content": "?\n"},
         {"path": "src/empty.py", "content": ""},
         {"path": "LICENSE", "content": "the licence\n"},
